@@ -5,6 +5,7 @@ import CvDriver.C11
 import CvDriver.Mod
 import CvDriver.C20
 import CvDriver.C13
+import CvDriver.C19
 open Drv
 
 structure DState where
@@ -12,6 +13,7 @@ structure DState where
   ms : MsSt := {}
   mod : ModSt := {}
   script : ScriptSt := {}
+  outp : OutSt := {}
 
 def stepLine (s : DState) (ln : Nat) (line : String) : DState × List String :=
   let t := toks line
@@ -33,8 +35,16 @@ def stepLine (s : DState) (ln : Nat) (line : String) : DState × List String :=
     match c20 s.script ln t with
     | some (m, o) => ({ s with script := m }, o)
     | none =>
+    match c19 s.outp ln t with
+    | some (m, o) => ({ s with outp := m }, o)
+    | none =>
     match modOps s.mod ln t with
-    | some (m, o) => ({ s with mod := m }, o)
+    | some (m, o) =>
+      -- output files follow every engine step
+      let outp := if t.head? == some "m.step" then
+          outStep s.outp m.m.clock (fun a => (m.posz.lookup a).getD 0.0)
+        else if t.head? == some "m.new" then {} else s.outp
+      ({ s with mod := m, outp := outp }, o)
     | none => (s, [])
 
 partial def loop (h : IO.FS.Stream) (s : DState) (ln : Nat) : IO Unit := do
